@@ -32,7 +32,51 @@ fn pre(site: &str) {
     }
 }
 fn push(s: String) {
+    let fire = {
+        let mut ps = PANIC_SITE.lock().unwrap_or_else(|e| e.into_inner());
+        let hit = ps.as_deref().map(|site| s.split(':').next() == Some(site)).unwrap_or(false);
+        if hit {
+            *ps = None; // first occurrence only
+        }
+        hit
+    };
     LOG.lock().unwrap_or_else(|e| e.into_inner()).push(s);
+    if fire {
+        panic!("injected panic at the event just logged");
+    }
+}
+/// C18 sweep: the first event logged at this site panics right after it is logged (in the reference and in the macro alike)
+pub static PANIC_SITE: Mutex<Option<String>> = Mutex::new(None);
+/// input slot that selects the panicking site: 0 = none, n = the n-th distinct site (first-occurrence order) of the reference's
+/// fault-free trace for the same row
+pub const PANIC_SLOT: usize = 61;
+fn sites_of(log: &[String]) -> Vec<String> {
+    let mut v: Vec<String> = Vec::new();
+    for e in log {
+        let s = e.split(':').next().unwrap_or("").to_string();
+        if !v.contains(&s) {
+            v.push(s);
+        }
+    }
+    v
+}
+/// C07: when switched on, a block-capture event (`c.…`) that is NOT evaluated by the thread that switched it on carries a suffix
+static TAG_THREADS: std::sync::atomic::AtomicBool = std::sync::atomic::AtomicBool::new(false);
+static TAG_CALLER: Mutex<Option<std::thread::ThreadId>> = Mutex::new(None);
+pub fn tag_threads(on: bool) {
+    *TAG_CALLER.lock().unwrap_or_else(|e| e.into_inner()) = if on { Some(std::thread::current().id()) } else { None };
+    TAG_THREADS.store(on, SeqCst);
+}
+/// true when thread tagging is on and the current thread is not the one that switched it on
+pub fn off_caller() -> bool {
+    TAG_THREADS.load(SeqCst) && *TAG_CALLER.lock().unwrap_or_else(|e| e.into_inner()) != Some(std::thread::current().id())
+}
+fn tagged(site: &str) -> String {
+    if site.starts_with("c.") && off_caller() {
+        format!("{}@not-the-caller", site)
+    } else {
+        site.to_string()
+    }
 }
 /// Log an event `site:arg`.
 pub fn ev<T: Debug + ?Sized>(site: &str, v: &T) {
@@ -48,7 +92,7 @@ pub fn ev0(site: &str) {
         return;
     }
     pre(site);
-    push(site.to_string());
+    push(tagged(site));
 }
 /// Log the evaluation of a non-closure operand and return it.
 pub fn lg<T>(site: &str, v: T) -> T {
@@ -614,10 +658,12 @@ pub fn drive(progs: &[Prog]) {
         let mut nonempty_trace = false;
         let mut sample = String::new();
         let mut allrows: Vec<Vec<i64>> = Vec::new();
+        let sweep = p.sub.contains(&PANIC_SLOT);
+        let subs: Vec<usize> = p.sub.iter().cloned().filter(|s| *s != PANIC_SLOT).collect();
         for row in p.rows {
-            for mask in 0u64..(1u64 << p.sub.len()) {
+            for mask in 0u64..(1u64 << subs.len()) {
                 let mut r: Vec<i64> = row.to_vec();
-                for (i, s) in p.sub.iter().enumerate() {
+                for (i, s) in subs.iter().enumerate() {
                     if mask >> i & 1 == 1 {
                         if r.len() <= *s {
                             r.resize(*s + 1, 0);
@@ -627,16 +673,56 @@ pub fn drive(progs: &[Prog]) {
                 }
                 allrows.push(r);
             }
+            if sweep {
+                // one row per distinct event site of the reference's fault-free trace: that event panics
+                let mut b: Vec<i64> = row.to_vec();
+                if b.len() <= PANIC_SLOT {
+                    b.resize(PANIC_SLOT + 1, 0);
+                }
+                b[PANIC_SLOT] = 0;
+                set_inp(&b);
+                let (_, rl0, _) = run1(p.r);
+                for n in 1..=sites_of(&rl0).len() {
+                    let mut r = b.clone();
+                    r[PANIC_SLOT] = n as i64;
+                    allrows.push(r);
+                }
+            }
         }
         for row in &allrows {
+            let pn = row.get(PANIC_SLOT).copied().unwrap_or(0);
+            let mut rl0: Vec<String> = Vec::new();
+            let mut psite: Option<String> = None;
+            if pn > 0 {
+                let mut b = row.clone();
+                b[PANIC_SLOT] = 0;
+                set_inp(&b);
+                rl0 = run1(p.r).1;
+                psite = sites_of(&rl0).get(pn as usize - 1).cloned();
+            }
             set_inp(row);
+            *PANIC_SITE.lock().unwrap_or_else(|e| e.into_inner()) = psite.clone();
             let (rv, rl, rt) = run1(p.r);
             set_inp(row);
+            *PANIC_SITE.lock().unwrap_or_else(|e| e.into_inner()) = psite.clone();
             let (mv, ml, mt) = run1(p.m);
+            *PANIC_SITE.lock().unwrap_or_else(|e| e.into_inner()) = None;
             if !rl.is_empty() {
                 nonempty_trace = true;
             }
-            let ok = match p.cmp {
+            let ok = if let Some(site) = &psite {
+                // a panic of a user expression reaches the caller; nothing of a later step runs; what ran before is what the
+                // reference ran (sequential macros: the very same trace)
+                let k = step_of(site);
+                let later = |l: &[String]| l.iter().any(|e| match (step_of(e), k) { (Some(a), Some(b)) => a > b, _ => false });
+                rv != "PANIC" // the reference swallowed it (cannot happen for a logged site); nothing to compare
+                    || (mv == "PANIC"
+                        && match p.cmp {
+                            Cmp::Full => ml == rl,
+                            _ => proj_prefix(&ml, &rl0) && !later(&ml),
+                        })
+            } else {
+                match p.cmp {
                 Cmp::Full => rv == mv && rl == ml && rt == mt,
                 Cmp::Proj => rv == mv && proj(&rl) == proj(&ml) && rt == mt,
                 Cmp::Value => rv == mv,
@@ -649,6 +735,7 @@ pub fn drive(progs: &[Prog]) {
                         } else {
                             proj(&rl) == proj(&ml) && rt == mt
                         }
+                }
                 }
             };
             if sample.is_empty() {
